@@ -156,7 +156,12 @@ def rangeJudge (h : List Char) (R : List Nat) (resp : Response) : Option String 
   | _ =>
   -- 2. ranges that are empty or negative
   match rgNonPositive resp with
-  | some l => if l < 0 then some "parseRange/negative-length-206" else some "parseRange/unsatisfiable-range-served-as-empty-206"
+  | some l =>
+    if l < 0 then
+      -- the open finding is about SIGNED suffix lengths, which are outside the grammar; a negative length for a
+      -- grammatical header (e.g. an int64 overflow for `0-9223372036854775807`) is another defect
+      (if (denote h).isSome then some "parseRange/negative-length-for-grammatical-range" else some "parseRange/negative-length-206")
+    else some "parseRange/unsatisfiable-range-served-as-empty-206"
   | none =>
   if !consistent R resp then some "processRangeRequest/206-bytes-differ-from-content-range" else
   match denote h with
@@ -168,6 +173,13 @@ def rangeJudge (h : List Char) (R : List Nat) (resp : Response) : Option String 
     | .unsat, _ => some "processRangeRequest/206-for-unsatisfiable"
     | _, .unsat => some "parseRange/416-although-a-range-is-satisfiable"
     | _, _ => some "processRangeRequest/other-ranges-than-requested"
+
+/-- framing of the answer as the client saw it (`mp` = multipart body complete: announced length = delivered length,
+    every part readable to its end, closing delimiter present) -/
+def framingJudge (cl : String) : Option String :=
+  if cl == "mpbad" then some "processRangeRequest/multipart-body-incomplete"
+  else if cl == "readerr" then some "processRangeRequest/body-shorter-than-announced"
+  else none
 
 def encodingJudge (ae : List Char) (gz : Bool) : Option String :=
   if gz && !clientAcceptsGzip ae then
